@@ -27,9 +27,9 @@ which the check ties to the real compiler line by line on every run):
   * for every hypothesis a concrete witness (closed computation on the model,
     replayed on the Go code by `c12 one -extra "<op> <s|u> <n> <a> <b> <aform> <bform>"`)
     showing that the full statement fails without it;
-  * `C12_no_crash_small` / `C12_crash_wide_witness`: no panic branch of the
-    model is reachable on the small path; on the large path `uint128(5)+uint128(7)`
-    crashes the compiler.
+  * `C12_no_crash`: no panic branch of the model is reachable for any width
+    (`C12_crash_wide_old_witness`: before repo d31d09e `uint128(5)+uint128(7)`
+    crashed the compiler).
 
 Not covered by theorems: widths above 64 (large path; model correspondence and
 oracle only) and consumers other than `return` (oracle only; the witnesses
@@ -58,7 +58,7 @@ theorem sameKind_spec {lt rt : TInfo} {lv rv : MInt} (h : sameKind (.int lt lv) 
 /-- Unary minus goes through `Unary.Eval` (`negate`), every binary operator through `Binary.evalConst`. -/
 def foldOp (op : Op) (l r : CV) : Res CV := if op = .neg then negate l else evalBin op l r
 
-/-! ## `-  *  &  |  ^  &^` -/
+/-! ## `+  -  *  &  |  ^  &^` -/
 
 /-- For every width `0 < n ≤ 64`, every pair of integer constants of the same kind whose `mpa` values are
 small and whose types have between `n` and 64 bits: folding succeeds and the low `n` wires of the folded
@@ -89,29 +89,27 @@ example : caseHyps .bclr .int 33 (-5) 9 .neg .pos = [] := by decide +kernel
 
 /-! ## `+` -/
 
-/-- `Add` masks the sum to `max(x.bits, y.bits)` — the `mpa` sizes (32 or 64) of the operands, not the type
-width.  Under the extra hypothesis `n ≤ max(x.bits, y.bits)` the statement of `C12_fold_wrap_ops` holds. -/
-theorem C12_fold_add_partial (signed : Bool) (n cnt : Nat) (l r : CV) (hn0 : 0 < n)
-    (hl : smallOperand n l = true) (hr : smallOperand n r = true) (hk : sameKind l r = true)
-    (hsize : n ≤ max (mpaBits l) (mpaBits r)) :
+/-- `+` (since repo de91761 `mpa.Int.Add` keeps the receiver's width): the statement of `C12_fold_wrap_ops`
+without any extra hypothesis. -/
+theorem C12_fold_add (signed : Bool) (n cnt : Nat) (l r : CV) (hn0 : 0 < n)
+    (hl : smallOperand n l = true) (hr : smallOperand n r = true) (hk : sameKind l r = true) :
     ∃ t v, evalBin .add l r = .ok (.int t v) ∧ v.bits ≤ 64 ∧
-      seenBV n (.int t v) = circuitOp .add signed (seenBV n l) (seenBV n r) cnt := by
-  obtain ⟨lt, lv, rfl, _, hlv, hnl, hl64⟩ := smallOperand_spec hl
-  obtain ⟨rt, rv, rfl, _, hrv, hnr, _⟩ := smallOperand_spec hr
-  simp only [mpaBits] at hsize
-  rw [evalBin_add lt rt lv rv (sameKind_spec hk) (by omega) hl64 hlv hrv]
-  obtain ⟨t, v, h1, _, _, _, h5, _, _, _, h8⟩ :=
-    seen_const_masked n (max lv.bits rv.bits) lt (lv.small + rv.small) (by omega) hsize hnl
-  refine ⟨t, v, h1, h5, ?_⟩
-  rw [h8, seenBV_small n lt lv hlv hnl, seenBV_small n rt rv hrv hnr]
-  exact BitVec.setWidth_add _ _ (by omega)
+      seenBV n (.int t v) = circuitOp .add signed (seenBV n l) (seenBV n r) cnt :=
+  C12_fold_wrap_ops .add rfl signed n cnt l r hn0 hl hr hk
 
-/-- Witness that the hypothesis is needed: `uint40(4294967295) + uint40(1)` folds to 0 (both operands are
-sized 32 bits, the carry into bit 32 is masked away); the run-time adder gives 2^32. -/
-theorem C12_add_carry_lost_witness :
-    (foldExpr .add .uint 40 4294967295 1 .pos .pos >>= retSeen .uint 40) = .ok 0 ∧
+/-- `Add` as it was before de91761: the sum masked to `max(x.bits, y.bits)`, the operands' `mpa` sizes. -/
+def addOld (z x y : MInt) : Option MInt :=
+  if z.isSmall then setSmall (max x.bits y.bits) (x.small + y.small) else Mpa.add z x y
+
+/-- Witness about the OLD definition (why the fix was needed): for `uint40(4294967295) + uint40(1)` both
+operands are sized 32 bits and the carry into bit 32 was masked away (result 0); the current `Add` gives 2^32
+like the run-time adder. -/
+theorem C12_add_carry_lost_old_witness :
+    addOld { bits := 40 } { bits := 32, i64 := 4294967295#64 } { bits := 32, i64 := 1#64 } =
+      some { bits := 32, i64 := 0#64 } ∧
+    (foldExpr .add .uint 40 4294967295 1 .pos .pos >>= retSeen .uint 40) = .ok 4294967296 ∧
     circuitOpNat .add .uint 40 4294967295 1 = 4294967296 ∧
-    caseHyps .add .uint 40 4294967295 1 .pos .pos = ["add-size"] := by
+    caseHyps .add .uint 40 4294967295 1 .pos .pos = [] := by
   decide +kernel
 
 example : caseHyps .add .uint 40 1099511627775 1 .pos .pos = [] := by decide +kernel
@@ -351,15 +349,7 @@ theorem C12_fold_eq_circuit_partial (op : Op) (signed : Bool) (n : Nat) (l r : C
       exact C12_fold_cmp_partial o ho signed n l r hl hr' hi.1 hi.2
     · rw [ho] at h; exact absurd h (by decide)
   cases op with
-  | add =>
-    simp only [List.append_eq_nil_iff] at hrest
-    have hsz := ite_nil hrest.1
-    have hk := ite_nil hrest.2
-    simp only [decide_eq_true_eq] at hsz
-    have hr' : smallOperand n r = true := by simpa [Op.isShift] using hr
-    refine ⟨fun h => by simp [Op.isCmp] at h, fun _ => ?_⟩
-    obtain ⟨t, v, h1, _, h3⟩ := C12_fold_add_partial signed n cnt.toNat l r hn0 hl hr' hk hsz
-    exact ⟨t, v, by simp [foldOp, h1], h3⟩
+  | add => exact wrap .add rfl rfl (ite_nil hrest) (by simpa [Op.isShift] using hr)
   | sub => exact wrap .sub rfl rfl (ite_nil hrest) (by simpa [Op.isShift] using hr)
   | mul => exact wrap .mul rfl rfl (ite_nil hrest) (by simpa [Op.isShift] using hr)
   | band => exact wrap .band rfl rfl (ite_nil hrest) (by simpa [Op.isShift] using hr)
@@ -508,11 +498,14 @@ theorem C12_result_type_widened_witness :
     circuitOpNat .add .int 8 100 100 = 200 ∧ (BitVec.ofNat 8 200).toInt = -56 := by
   decide +kernel
 
-/-- … and a sum that needs more than `n` bits is rejected when returned: `uint7(1)+uint7(127)` is the
-`uint32` constant 128 with `MinBits = 8 > 7` (compile error "invalid value uint32 for return value uint7"). -/
+/-- … and a result computed with a LEFT operand of the form `-T(v)` (itself a folded result, hence typed 32
+bits) is masked at 32 bits, not at the declared width: `(-int3(1)) + int3(1)` is the `int32` constant 8 with
+`MinBits = 4 > 3`, rejected when returned as `int3` ("invalid value int32 for return value int3"); the run-time
+adder gives 0.  (`uint7(1)+uint7(127)`, rejected before de91761, now folds to 0.) -/
 theorem C12_result_minbits_witness :
-    (foldExpr .add .uint 7 1 127 .pos .pos >>= retSeen .uint 7) = .error .compileError ∧
-    circuitOpNat .add .uint 7 1 127 = 0 ∧ caseHyps .add .uint 7 1 127 .pos .pos = [] := by
+    (foldExpr .add .int 3 (-1) 1 .neg .pos >>= retSeen .int 3) = .error .compileError ∧
+    circuitOpNat .add .int 3 (-1) 1 = 0 ∧ caseHyps .add .int 3 (-1) 1 .neg .pos = [] ∧
+    (foldExpr .add .uint 7 1 127 .pos .pos >>= retSeen .uint 7) = .ok 0 := by
   decide +kernel
 
 /-- Re-folding: the folded `int32` result -1 is held as 0xFFFFFFFF (masked, not sign-extended), so
@@ -523,45 +516,120 @@ theorem C12_refold_shr_witness :
         evalBin .shr c one >>= retSeen .int 32) = .ok 2147483647 := by
   decide +kernel
 
-/-- "Folding never crashes": on the small path no operator reaches a panic branch of the model
-(`New(0)`, `setSmall bits > 64`, `Int64` with size 0, `Constant MinBits > Bits`). -/
-theorem C12_no_crash_small (op : Op) (l r : CV) (hl : smallOperand 1 l = true) (hr : smallOperand 0 r = true) :
-    foldOp op l r ≠ .error .panic := by
-  obtain ⟨lt, lv, rfl, hlv0, hlv, hnl, hl64⟩ := smallOperand_spec hl
-  obtain ⟨rt, rv, rfl, hrv0, hrv, _, _⟩ := smallOperand_spec hr
-  have hne : lt.bits ≠ 0 := by omega
-  have hsm : (({ bits := lt.bits } : MInt).isSmall) = true := by simp [MInt.isSmall, hl64]
-  have hm : max lv.bits rv.bits ≤ 64 := by omega
-  have h1 : lv.isSmall = true := by simp [MInt.isSmall, hlv]
-  have h2 : rv.isSmall = true := by simp [MInt.isSmall, hrv]
-  have hli : ∃ a, lv.int64 = some a := by
-    simp only [MInt.int64, h1, if_true]
-    rw [if_neg (by omega)]
+theorem int64_some (v : MInt) (h0 : 0 < v.bits) : ∃ a, v.int64 = some a := by
+  unfold MInt.int64
+  split
+  · rw [if_neg (by omega)]
+    simp only []
     split <;> exact ⟨_, rfl⟩
-  have hri : ∃ a, rv.int64 = some a := by
-    simp only [MInt.int64, h2, if_true]
-    rw [if_neg (by omega)]
-    split <;> exact ⟨_, rfl⟩
-  obtain ⟨a, ha⟩ := hli
-  obtain ⟨b, hb⟩ := hri
-  by_cases hk : lt.kind = rt.kind
-  · by_cases hz : rv.small = 0#64 <;> cases op <;>
-      simp [foldOp, evalBin, Op.isCmp, Op.isShift, Op.isArith, hk, Mpa.new, hne, liftP, Mpa.add, Mpa.sub, Mpa.mul,
-        Mpa.div, Mpa.mod, Mpa.and, Mpa.or, Mpa.xor, Mpa.andNot, Mpa.bitwise, Mpa.lsh, Mpa.rsh, Mpa.cmp, hsm, h1, h2,
-        ha, hb, hz, setSmall_eq _ _ hl64, setSmall_eq _ _ hm, constantMpa_ok, bind, Except.bind, Option.bind,
-        negate_small lt lv (by omega) hl64]
-  · cases op <;>
-      simp [foldOp, evalBin, Op.isCmp, Op.isShift, Op.isArith, hk, Mpa.new, hne, liftP, Mpa.lsh, Mpa.rsh, Mpa.cmp,
-        hsm, h1, h2, ha, hb, setSmall_eq _ _ hl64, constantMpa_ok, bind, Except.bind, Option.bind,
-        negate_small lt lv (by omega) hl64]
+  · exact ⟨_, rfl⟩
 
-/-- … but on the large path it does: `uint128(5) + uint128(7)` (and `-`) makes `mpa.Int.Add` build an adder
-whose 128 declared output wires are partly replaced by the zero wire, and `circuits.Compiler.Compile` panics
-"Output already assigned".  The run-time adder gives 12. -/
-theorem C12_crash_wide_witness :
-    foldExpr .add .uint 128 5 7 .pos .pos = .error .panic ∧
-    foldExpr .sub .uint 128 5 7 .pos .pos = .error .panic ∧
-    circuitOpNat .add .uint 128 5 7 = 12 := by
+theorem cmp_some (x y : MInt) (hx : 0 < x.bits) (hy : 0 < y.bits) : ∃ c, Mpa.cmp x y = some c := by
+  obtain ⟨a, ha⟩ := int64_some x hx
+  obtain ⟨b, hb⟩ := int64_some y hy
+  unfold Mpa.cmp
+  split
+  · exact ⟨cmpInt a.toInt b.toInt, by simp [ha, hb]⟩
+  · exact ⟨_, rfl⟩
+
+theorem setSmall_some (B : Nat) (x : BitVec 64) (h : B ≤ 64) : ∃ m, setSmall B x = some m := ⟨_, setSmall_eq B x h⟩
+
+/-- every `mpa` method returns (no panic) on a receiver made by `New(bits)`, `bits > 0` -/
+theorem mpa_ops_some (op : Op) (hop : op.isArith = true) (z x y : MInt) :
+    ∃ m, (match op with
+        | .add => Mpa.add z x y | .sub => Mpa.sub z x y | .mul => Mpa.mul z x y | .div => Mpa.div z x y
+        | .mod => Mpa.mod z x y | .band => Mpa.and z x y | .bor => Mpa.or z x y | .bxor => Mpa.xor z x y
+        | _ => Mpa.andNot z x y) = some m := by
+  by_cases hs : z.isSmall = true
+  · have h64 : z.bits ≤ 64 := by simpa [MInt.isSmall] using hs
+    cases op <;> simp [Op.isArith] at hop <;>
+      simp only [Mpa.add, Mpa.sub, Mpa.mul, Mpa.div, Mpa.mod, Mpa.and, Mpa.or, Mpa.xor, Mpa.andNot, Mpa.bitwise, hs,
+        if_true] <;> (try split) <;> exact setSmall_some _ _ h64
+  · cases op <;> simp [Op.isArith] at hop <;>
+      simp only [Mpa.add, Mpa.sub, Mpa.mul, Mpa.div, Mpa.mod, Mpa.and, Mpa.or, Mpa.xor, Mpa.andNot, Mpa.bitwise, hs,
+        Bool.false_eq_true, if_false, largeAdd, largeSub, largeMul] <;> exact ⟨_, rfl⟩
+
+theorem lsh_rsh_some (z x : MInt) (n : Nat) (a : Bool) : (∃ m, Mpa.lsh z x n = some m) ∧ (∃ m, Mpa.rsh z x n a = some m) := by
+  by_cases hs : z.isSmall = true
+  · have h64 : z.bits ≤ 64 := by simpa [MInt.isSmall] using hs
+    simp only [Mpa.lsh, Mpa.rsh, hs, if_true]
+    exact ⟨setSmall_some _ _ h64, setSmall_some _ _ h64⟩
+  · simp only [Mpa.lsh, Mpa.rsh, hs, Bool.false_eq_true, if_false]
+    exact ⟨⟨_, rfl⟩, ⟨_, rfl⟩⟩
+
+/-- Type and `mpa` sizes of an integer constant are positive (true of every constant the compiler builds:
+`New(0)` panics, `Generator.Constant` sizes at least 32). -/
+def sizesPositive : CV → Prop
+  | .int t v => 0 < t.bits ∧ 0 < v.bits
+  | .bool _ => True
+
+/-- "Folding never crashes the compiler", for EVERY width (since repo d31d09e also above 64 bits): no operator
+on any two constants with positive sizes reaches a panic branch of the model (`New(0)`, `setSmall bits > 64`,
+`Int64` with size 0, `Constant MinBits > Bits`; the large-path circuits no longer provoke `Compile`'s
+"Output already assigned").  Errors that remain possible are compile errors (kind mismatch, operator not
+defined). -/
+theorem C12_no_crash (op : Op) (l r : CV) (hl : sizesPositive l) (hr : sizesPositive r) :
+    foldOp op l r ≠ .error .panic := by
+  unfold foldOp
+  by_cases hneg : op = .neg
+  · rw [if_pos hneg]
+    cases l with
+    | bool b => simp [negate]
+    | int t v =>
+      obtain ⟨m, hm⟩ := mpa_ops_some .sub rfl (newInt 0#64 t.bits) (newInt 0#64 t.bits) v
+      simp only [] at hm
+      simp [negate, hm, liftP, bind, Except.bind, constantMpa_ok]
+  · rw [if_neg hneg]
+    cases l with
+    | bool a =>
+      cases r with
+      | bool b => cases op <;> simp [evalBin]
+      | int t v => simp [evalBin]
+    | int lt lv =>
+      cases r with
+      | bool b => simp [evalBin]
+      | int rt rv =>
+        obtain ⟨hl0, hlv⟩ := hl
+        obtain ⟨_, hrv⟩ := hr
+        have hne : lt.bits ≠ 0 := by omega
+        unfold evalBin
+        simp only []
+        by_cases hc : op.isCmp = true
+        · obtain ⟨c, hcm⟩ := cmp_some lv rv hlv hrv
+          simp [hc, hcm, liftP, bind, Except.bind]
+        · by_cases hsft : op.isShift = true
+          · obtain ⟨cnt, hcnt⟩ := int64_some rv hrv
+            obtain ⟨⟨m1, h1⟩, ⟨m2, h2⟩⟩ := lsh_rsh_some { bits := lt.bits } lv cnt.toNat false
+            cases op <;> simp [Op.isShift] at hsft <;>
+              simp [Op.isCmp, Op.isShift, Mpa.new, hne, hcnt, liftP, bind, Except.bind, h1, h2, constantMpa_ok]
+          · by_cases ha : op.isArith = true
+            · by_cases hk : lt.kind = rt.kind
+              · obtain ⟨m, hm⟩ := mpa_ops_some op ha { bits := lt.bits } lv rv
+                cases op <;> simp [Op.isArith] at ha <;> simp only [] at hm <;>
+                  simp [Op.isCmp, Op.isShift, Op.isArith, hk, Mpa.new, hne, liftP, bind, Except.bind, hm, constantMpa_ok]
+              · simp [hc, hsft, ha, hk]
+            · simp [hc, hsft, ha]
+
+-- non-vacuity: every constant the generator writes has positive sizes, e.g. uint128(5) and int8(-43)
+example : ∃ t v, typedConst .uint 128 5 .pos = .ok (.int t v) ∧ sizesPositive (.int t v) := by
+  refine ⟨_, _, by decide +kernel, ?_⟩; simp [sizesPositive]
+
+/-- The large-path adder / subtractor as it was before repo d31d09e: operands at their own widths; result
+wires above `max(x.bits, y.bits) + 1` were replaced by the zero wire although they are declared outputs, and
+`circuits.Compiler.Compile` panicked "Output already assigned". -/
+def largeAddOld (xb yb zb : Nat) (x y : Int) : Option MInt :=
+  let nz := max (max xb yb) zb
+  let m := max xb yb
+  if nz > m + 1 then none
+  else some { bits := nz, i64 := 0#64, big := some (((wires x xb + wires y yb) % 2 ^ nz : Nat) : Int) }
+
+/-- Witness about the OLD definition: `uint128(5) + uint128(7)` (operands sized 32 bits, result 128 bits)
+crashed the compiler; with the current definition it folds to 12 like the run-time adder, and so does `-`. -/
+theorem C12_crash_wide_old_witness :
+    largeAddOld 32 32 128 5 7 = none ∧
+    (foldExpr .add .uint 128 5 7 .pos .pos >>= retSeen .uint 128) = .ok 12 ∧
+    (foldExpr .sub .uint 128 5 7 .pos .pos >>= retSeen .uint 128) = .ok (2 ^ 128 - 2) ∧
+    circuitOpNat .add .uint 128 5 7 = 12 ∧ circuitOpNat .sub .uint 128 5 7 = 2 ^ 128 - 2 := by
   decide +kernel
 
 /-- Large path, further witnesses: the divider is SIGNED and as wide as the operands' own sizes
